@@ -263,6 +263,11 @@ Agreed == /\ \A a, b \in UpNodes : view[a].mem = view[b].mem
           /\ (Seeds \cap UpNodes # {} => Pending = {})
 EventuallyAgreed == <>[]Agreed
 
+(* failure detection must not remove a member whose node is running and reachable *)
+NoLiveMemberRemoved == [][\A n \in Nodes : \A i \in Ids :
+                            (proc[n].run = "up" /\ view[n].mem[i] # None /\ view'[n].mem[i] = None)
+                              => ~(proc[view[n].mem[i].at].run = "up" /\ proc[view[n].mem[i].at].id = i /\ CanTalk(n, view[n].mem[i].at))]_vars
+
 ConvergedMembers == Stable => SameMembers /\ SameLeader /\ LeaderAnnounced
 ConvergedIncarnations == Stable => NewestIncarnation /\ NoShadow
 ConvergedExact == Stable => ExactlyTheRunning /\ OneLeader
